@@ -69,7 +69,11 @@ namespace
 	{
 	  assert (t.m_children.size () == 1);
 	  auto origin = std::make_shared <op_origin> (l);
-	  auto op = build_exec (t.child (0), l, rdv_ll, origin, bn, up);
+	  // Whatever the sub-expression binds lives in state that is
+	  // gone once the assertion has been evaluated, and must not
+	  // be visible outside.
+	  bindings scope {bn};
+	  auto op = build_exec (t.child (0), l, rdv_ll, origin, scope, up);
 	  return std::make_unique <pred_subx_any> (op, origin);
 	}
 
@@ -133,7 +137,11 @@ namespace
 	  for (size_t i = 0; i < t.m_children.size (); ++i)
 	    {
 	      auto tine = std::make_shared <op_tine> (*merge, i);
-	      auto op = build_exec (t.m_children[i], l, rdv_ll, tine, bn, up);
+	      // A name bound in one branch is not bound for stacks that
+	      // come through the other branches.
+	      bindings scope {bn};
+	      auto op = build_exec (t.m_children[i], l, rdv_ll, tine,
+				    scope, up);
 	      merge->add_branch (op);
 	    }
 
@@ -181,7 +189,8 @@ namespace
 	      else
 		{
 		  auto origin2 = std::make_shared <op_origin> (l);
-		  auto op = build_exec (tree, l, rdv_ll, origin2, bn, up);
+		  bindings scope {bn};
+		  auto op = build_exec (tree, l, rdv_ll, origin2, scope, up);
 		  strgr = std::make_shared <stringer_op> (l, strgr,
 							  origin2, op);
 		}
